@@ -5,14 +5,24 @@ from supybot.commands import wrap
 def _cfg():
     return sys.modules.get('vt_c20')
 
+# the "version on disk" of this plugin: the harness changes it between a load and a reload, as if the
+# module file had been rewritten (this file is re-executed by every load / reload): odd versions have
+# one more command (alt1), and every instance answers with its own serial number
+_VERSION = getattr(_cfg(), 'version', {}).get('VtOrd1', 0) if _cfg() is not None else 0
+
 class VtOrd1(callbacks.Plugin):
     """C20 ordering probe VtOrd1."""
+    vt_version = _VERSION
+
     def __init__(self, irc):
         c = _cfg()
+        self.vt_serial = 0
         if c is not None:
             c.log.append(('init', 'VtOrd1'))
             if 'VtOrd1' in c.init_raises:
                 raise RuntimeError('vt_c20: constructor of VtOrd1 made to raise')
+            c.serial += 1
+            self.vt_serial = c.serial
         super().__init__(irc)
 
     @property
@@ -42,8 +52,16 @@ class VtOrd1(callbacks.Plugin):
     def ord1(self, irc, msg, args):
         """takes no arguments
 
-        Answers with the name of this plugin."""
-        irc.reply('VtOrd1 here')
+        Answers with the name of this plugin and the serial number of this instance."""
+        irc.reply('VtOrd1 here g%d' % self.vt_serial)
     ord1 = wrap(ord1)
+
+    if _VERSION % 2 == 1:
+        def alt1(self, irc, msg, args):
+            """takes no arguments
+
+            Exists only in odd versions of this plugin."""
+            irc.reply('VtOrd1 alt g%d' % self.vt_serial)
+        alt1 = wrap(alt1)
 
 Class = VtOrd1
